@@ -26,6 +26,8 @@
 //!  * ASPA: 5 issuers (with / without IP resources, all / few ASNs) x
 //!    customer AS x all subsets of an 8-atom AS universe / inherit x
 //!    9 IP-resource combinations, refuse / trim;
+//!  * evaluation instants around the EE validity bounds down to 1 ns; repeated
+//!    validation of one decoded value over all pairs / triples of settings;
 //!  * CRL callback {Ok, Err} x condition through `process()`;
 //!  * every single-bit flip of one valid object of each kind, both modes.
 //!
@@ -43,7 +45,7 @@ use rpki::repository::error::{ValidationError, VerificationError};
 use rpki::repository::manifest::Manifest;
 use rpki::repository::roa::Roa;
 use rpki::repository::sigobj::SignedObject;
-use rpki::repository::x509::Validity;
+use rpki::repository::x509::{Time, Validity};
 use rpki_verif::engine::der::{self, Civil, MftEntry, RoaAddr, SignedDataParts};
 use rpki_verif::engine::enumerate::permutations;
 use rpki_verif::engine::pki::{self, Claim, Res, Spec, T0};
@@ -246,7 +248,8 @@ struct Plan {
     content: Vec<u8>,
     order: [usize; 3],
     st_gen: bool,
-    digest_null: bool,
+    /// NULL parameters of the digest algorithm: bit 0 in SignedData.digestAlgorithms, bit 1 in SignerInfo.digestAlgorithm (independent)
+    digest_null: u8,
     sig_alg: u8,
     digest: DigestV,
     sig: SigV,
@@ -258,7 +261,7 @@ struct Plan {
 
 impl Plan {
     fn base(kind: Kind) -> Plan {
-        Plan { kind, ect: kind.ect(), content: default_content(kind), order: [0, 1, 2], st_gen: false, digest_null: false, sig_alg: 0,
+        Plan { kind, ect: kind.ect(), content: default_content(kind), order: [0, 1, 2], st_gen: false, digest_null: 0, sig_alg: 0,
                digest: DigestV::Ok, sig: SigV::Ok, sid: SidV::Ok, ee: EeV::Ok, ct: CtV::Ok, card: CardV::Ok }
     }
     fn all_ok(&self) -> bool {
@@ -275,7 +278,7 @@ impl Plan {
         v
     }
     fn witness(&self, strict: bool) -> String {
-        format!("kind={} order={} st={} digest-null={} sigalg={} content={}B violated=[{}] strict={}",
+        format!("kind={} order={} st={} digest-null(set|signerinfo<<1)={} sigalg={} content={}B violated=[{}] strict={}",
             self.kind.name(), self.order.iter().map(|&i| ATTR_NAMES[i]).collect::<Vec<_>>().join(","),
             if self.st_gen { "generalized" } else { "utc" }, self.digest_null, self.sig_alg, self.content.len(),
             self.violated().join(" "), strict)
@@ -341,14 +344,14 @@ fn assemble(fx: &Fx, p: &Plan, cert: &[u8]) -> Vec<u8> {
     let ect = if p.ct == CtV::EncapOther { p.kind.other_ct() } else { p.ect.clone() };
     der::signed_data(&SignedDataParts {
         version: 3,
-        digest_alg_set: der::set_unsorted(&[der::alg_sha256(p.digest_null)]),
+        digest_alg_set: der::set_unsorted(&[der::alg_sha256(p.digest_null & 1 != 0)]),
         econtent_type: ect,
         econtent: p.content.clone(),
         certificates: vec![cert.to_vec()],
         crls: vec![],
         si_version: 3,
         sid,
-        si_digest_alg: der::alg_sha256(p.digest_null),
+        si_digest_alg: der::alg_sha256(p.digest_null & 2 != 0),
         signed_attrs: attrs,
         sig_alg: sig_alg_tlv(p.sig_alg),
         signature,
@@ -514,9 +517,9 @@ fn main() {
     //--- (1) baseline: everything satisfied ------------------------------------------------
     {
         let sp = ctx.space("baseline.accept",
-            "kind x 6 signed-attribute orders x signing-time form x digest-alg NULL/absent x 4 signature-algorithm spellings x strict/relaxed, all conditions satisfied; plus a digest-violated and a sid-violated twin per (kind, order) so that both classes occur; non-trivial = distinct object encodings");
+            "kind x 6 signed-attribute orders x signing-time form x digest-algorithm parameters NULL/absent independently in SignedData.digestAlgorithms and SignerInfo.digestAlgorithm (4) x 4 signature-algorithm spellings x strict/relaxed, all conditions satisfied; plus a digest-violated and a sid-violated twin per (kind, order) so that both classes occur; non-trivial = distinct object encodings");
         let mut jobs = Vec::new();
-        for k in KINDS { for o in &perms { for st_gen in [false, true] { for dn in [false, true] { for sa in 0..4u8 { for strict in [true, false] {
+        for k in KINDS { for o in &perms { for st_gen in [false, true] { for dn in 0..4u8 { for sa in 0..4u8 { for strict in [true, false] {
             let mut p = Plan::base(k); p.order = *o; p.st_gen = st_gen; p.digest_null = dn; p.sig_alg = sa;
             jobs.push((p, strict));
         }}}}}}
@@ -534,7 +537,7 @@ fn main() {
         t.flush(&sp);
         let p = Plan::base(Kind::Gen);
         sp.sample_str(|| format!("{} -> signed attributes {}", p.witness(true), hex(&der::cat(&plan_attrs(&p)))));
-        sp.done(true, "4 kinds x 6 orders x 2 time forms x 2 x 4 algorithm spellings x 2 modes");
+        sp.done(true, "4 kinds x 6 orders x 2 time forms x 4 x 4 algorithm spellings x 2 modes");
     }
 
     //--- (2) signed-attribute total size ----------------------------------------------------
@@ -628,7 +631,7 @@ fn main() {
     //--- (4) condition vector -----------------------------------------------------------------
     {
         let sp = ctx.space("cond.vector",
-            "kind x 6 orders x strict/relaxed x {all satisfied; every variant of every single condition violated (digest 6, signature 4, sid 2, EE 3, content-type 2, cardinality 21); all pairs of violations of two different conditions (quick: over 14 representative variants; thorough: over all 38 variants)}; plus every single violation x all 16 benign spellings of the wrapper (time form, digest-algorithm parameters, 4 signature-algorithm spellings) x 2 orders; non-trivial = distinct object encodings with at least one condition violated");
+            "kind x 6 orders x strict/relaxed x {all satisfied; every variant of every single condition violated (digest 6, signature 4, sid 2, EE 3, content-type 2, cardinality 21); all pairs of violations of two different conditions (quick: over 14 representative variants; thorough: over all 38 variants)}; plus every single violation x all 32 benign spellings of the wrapper (time form, digest-algorithm parameters in either place, 4 signature-algorithm spellings) x 2 orders; non-trivial = distinct object encodings with at least one condition violated");
         let singles = all_single();
         let reps = if thorough { all_single() } else { pair_reps() };
         let mut viols: Vec<Vec<Viol>> = vec![vec![]];
@@ -636,10 +639,10 @@ fn main() {
         for (i, a) in reps.iter().enumerate() { for b in reps.iter().skip(i + 1) { if a.cond() != b.cond() { viols.push(vec![*a, *b]) } } }
         // (kind, order, mode, violation set, spelling = time form / digest-alg NULL / signature-algorithm spelling)
         let mut jobs = Vec::new();
-        for k in KINDS { for o in &perms { for strict in [true, false] { for (vi, _) in viols.iter().enumerate() { jobs.push((k, *o, strict, vi, (false, false, 0u8))) } } } }
+        for k in KINDS { for o in &perms { for strict in [true, false] { for (vi, _) in viols.iter().enumerate() { jobs.push((k, *o, strict, vi, (false, 0u8, 0u8))) } } } }
         // every single violation crossed with every benign spelling of the wrapper (two orders)
-        for k in KINDS { for o in [perms[0], perms[4]] { for vi in 0..=singles.len() { for st_gen in [false, true] { for dn in [false, true] { for sa in 0..4u8 {
-            if (st_gen, dn, sa) != (false, false, 0) { jobs.push((k, o, true, vi, (st_gen, dn, sa))) }
+        for k in KINDS { for o in [perms[0], perms[4]] { for vi in 0..=singles.len() { for st_gen in [false, true] { for dn in 0..4u8 { for sa in 0..4u8 {
+            if (st_gen, dn, sa) != (false, 0, 0) { jobs.push((k, o, true, vi, (st_gen, dn, sa))) }
         }}}}}}
         let t = Tally::new();
         let by_cond: Mutex<BTreeMap<String, u64>> = Mutex::new(BTreeMap::new());
@@ -662,33 +665,122 @@ fn main() {
         sp.set("single_violation_rejections", serde_json::json!(*by_cond.lock().unwrap()));
         let mut p = Plan::base(Kind::Roa); p.sid = SidV::OtherSki; p.ee = EeV::Expired;
         sp.sample_str(|| p.witness(true));
-        sp.done(true, &format!("{} violation sets (1 + {} single + pairs) x 4 kinds x 6 orders x 2 modes; (1 + {}) x 15 further spellings x 2 orders x 4 kinds", viols.len(), singles.len(), singles.len()));
+        sp.done(true, &format!("{} violation sets (1 + {} single + pairs) x 4 kinds x 6 orders x 2 modes; (1 + {}) x 31 further spellings x 2 orders x 4 kinds", viols.len(), singles.len(), singles.len()));
     }
 
     //--- (4b) evaluation instants against the EE certificate's validity ----------------------------
     {
         let sp = ctx.space("ee.validity.instants",
-            "manifest and generic object (the kinds with a timed entry point), 6 orders, both modes, EE certificate valid [T0-1d, 2049-12-31T23:59:59]: validate_at one second before notBefore, at notBefore, at T0, at notAfter, one second after: accepted <=> notBefore <= t <= notAfter; non-trivial = the four boundary instants");
-        let instants = [(T0 - DAY - 1, false), (T0 - DAY, true), (T0, true), (FAR, true), (FAR + 1, false)];
+            "manifest and generic object (the kinds with a timed entry point), 6 orders, both modes, EE certificate valid [T0-1d, 2049-12-31T23:59:59]: validate_at T0 and, around each of notBefore and notAfter, at bound -1 s, -1 ns, the bound itself, +1 ns, +0.5 s, +0.999999999 s, +1 s: accepted <=> notBefore <= t <= notAfter compared exactly (no rounding to whole seconds); non-trivial = all instants but T0");
+        let mut instants: Vec<(i64, u32, bool)> = vec![(T0, 0, true)];
+        for (bound, lower) in [(T0 - DAY, true), (FAR, false)] {
+            // (seconds, nanoseconds, before-or-at the bound)
+            for (s, n, at_or_before, before) in [(bound - 1, 0, true, true), (bound - 1, 999_999_999, true, true), (bound, 0, true, false), (bound, 1, false, false),
+                                         (bound, 500_000_000, false, false), (bound, 999_999_999, false, false), (bound + 1, 0, false, false)] {
+                instants.push((s, n, if lower { !before } else { at_or_before }));
+            }
+        }
+        let at = |s: i64, n: u32| Time::new(chrono::DateTime::from_timestamp(s, n).unwrap());
         for k in [Kind::Mft, Kind::Gen] { for o in &perms {
             let mut p = Plan::base(k); p.order = *o;
             let bytes = assemble(&fx, &p, &ees[&(k, EeV::Ok)]);
-            for strict in [true, false] { for (t, want) in instants {
+            for strict in [true, false] { for &(t, ns, want) in &instants {
                 let r = guard(|| match k {
                     Kind::Mft => match Manifest::decode(Bytes::copy_from_slice(&bytes), strict) {
                         Err(e) => Verdict::Decode(e.to_string()),
-                        Ok(m) => match m.validate_at(&fx.ca, strict, pki::time(t)) { Ok(_) => Verdict::Accept, Err(e) => Verdict::Invalid(e.to_string()) } },
+                        Ok(m) => match m.validate_at(&fx.ca, strict, at(t, ns)) { Ok(_) => Verdict::Accept, Err(e) => Verdict::Invalid(e.to_string()) } },
                     _ => match SignedObject::decode(Bytes::copy_from_slice(&bytes), strict) {
                         Err(e) => Verdict::Decode(e.to_string()),
-                        Ok(m) => match m.validate_at(&fx.ca, strict, pki::time(t)) { Ok(_) => Verdict::Accept, Err(e) => Verdict::Invalid(e.to_string()) } },
+                        Ok(m) => match m.validate_at(&fx.ca, strict, at(t, ns)) { Ok(_) => Verdict::Accept, Err(e) => Verdict::Invalid(e.to_string()) } },
                 });
                 let v = match r { Ok(v) => v, Err(pn) => Verdict::Panic(pn) };
                 sp.eval(); sp.outcome(v.class()); if t != T0 { sp.nontrivial(1) }
-                expect(&ctx, "C02.ee.instants.accept", "C02.ee.instants.reject", want, &v, || format!("{} evaluated at unix {t} (EE valid [{}, {}])", p.witness(strict), T0 - DAY, FAR));
+                expect(&ctx, "C02.ee.instants.accept", "C02.ee.instants.reject", want, &v, || format!("{} evaluated at unix {t} s + {ns} ns (EE valid [{}, {}])", p.witness(strict), T0 - DAY, FAR));
             }}
         }}
-        sp.sample_str(|| format!("kind=mft evaluated at unix {} (= notAfter) -> accepted", FAR));
-        sp.done(true, "2 kinds x 6 orders x 2 modes x 5 instants");
+        sp.sample_str(|| format!("kind=mft evaluated at unix {} s + 1 ns (notAfter + 1 ns) -> rejected", FAR));
+        sp.done(true, "2 kinds x 6 orders x 2 modes x 15 instants");
+    }
+
+    //--- (4c) history independence: the verdict depends on (object, issuer, time), not on earlier validations --------
+    {
+        let sp = ctx.space("history.independence",
+            "one decoded value per kind and mode, validated repeatedly on clones of that same value over all ordered pairs and triples of settings: manifest / generic: issuer {the CA, another CA with another key} x instant {T0, before notBefore, after notAfter}; ROA / ASPA / generic through process(): issuer x callback {Ok, Err}; every verdict must equal the verdict of a freshly decoded value under the same setting (and the model: accepted <=> right issuer, inside the window, callback Ok); non-trivial = steps that follow a step with a different verdict");
+        let ta = pki::valid_ta(&fx.s, K_TA, Res::all());
+        let ca2 = pki::valid_ca(&fx.s, &ta, K_TA, K_CA2, Res::all());
+        let issuers: [(&ResourceCert, &str); 2] = [(&fx.ca, "ca"), (&ca2, "other-ca")];
+        let times = [(T0, "T0"), (T0 - DAY - 1, "before"), (FAR + 1, "after")];
+        // sequences of setting indexes of length 2 and 3
+        let seqs = |n: usize| -> Vec<Vec<usize>> {
+            let mut v = Vec::new();
+            for a in 0..n { for b in 0..n { v.push(vec![a, b]); for c in 0..n { v.push(vec![a, b, c]) } } }
+            v
+        };
+        for k in KINDS { for strict in [true, false] {
+            let p = Plan::base(k);
+            let bytes = assemble(&fx, &p, &ees[&(k, EeV::Ok)]);
+            // one step on a given decoded value: returns accepted?
+            enum Obj { Roa(Roa), Aspa(Aspa), Mft(Manifest), Gen(SignedObject) }
+            let decode = || -> Option<Obj> {
+                let b = Bytes::copy_from_slice(&bytes);
+                match k {
+                    Kind::Roa => Roa::decode(b, strict).ok().map(Obj::Roa),
+                    Kind::Aspa => Aspa::decode(b, strict).ok().map(Obj::Aspa),
+                    Kind::Mft => Manifest::decode(b, strict).ok().map(Obj::Mft),
+                    Kind::Gen => SignedObject::decode(b, strict).ok().map(Obj::Gen),
+                }
+            };
+            // settings: (issuer index, time index or callback verdict, timed?)
+            let mut settings: Vec<(usize, usize, bool)> = Vec::new();
+            if matches!(k, Kind::Mft | Kind::Gen) { for i in 0..2 { for t in 0..3 { settings.push((i, t, true)) } } }
+            if !matches!(k, Kind::Mft) { for i in 0..2 { for cb in 0..2 { settings.push((i, cb, false)) } } }
+            let step = |o: &Obj, st: (usize, usize, bool)| -> Result<bool, String> {
+                let (issuer, _) = issuers[st.0];
+                guard(|| {
+                    let cb = |_: &rpki::repository::cert::Cert| -> Result<(), ValidationError> { if st.1 == 0 { Ok(()) } else { Err(VerificationError::new("revoked (callback)").into()) } };
+                    match (o, st.2) {
+                        (Obj::Mft(m), _) => m.clone().validate_at(issuer, strict, pki::time(times[st.1].0)).is_ok(),
+                        (Obj::Gen(m), true) => m.clone().validate_at(issuer, strict, pki::time(times[st.1].0)).is_ok(),
+                        (Obj::Gen(m), false) => m.clone().process(issuer, strict, cb).is_ok(),
+                        (Obj::Roa(m), _) => m.clone().process(issuer, strict, cb).is_ok(),
+                        (Obj::Aspa(m), _) => m.clone().process(issuer, strict, cb).is_ok(),
+                    }
+                })
+            };
+            let show = |st: (usize, usize, bool)| if st.2 { format!("({}, {})", issuers[st.0].1, times[st.1].1) } else { format!("({}, callback {})", issuers[st.0].1, if st.1 == 0 { "Ok" } else { "Err" }) };
+            let model = |st: (usize, usize, bool)| st.0 == 0 && st.1 == 0;
+            // fresh verdicts
+            let mut fresh = Vec::new();
+            for &st in &settings {
+                let Some(o) = decode() else { fail("C02.history.fresh", format!("{} decode", p.witness(strict)), "valid object does not decode"); fresh.push(false); continue };
+                let r = step(&o, st);
+                sp.eval();
+                match &r {
+                    Err(pn) => fail("C02.no_panic", format!("{} fresh {}", p.witness(strict), show(st)), pn.clone()),
+                    Ok(a) => { sp.outcome(if *a { "accepted" } else { "rejected" });
+                        if *a != model(st) { fail("C02.history.fresh", format!("{} fresh {}", p.witness(strict), show(st)), format!("accepted={a}, model says {}", model(st))) } }
+                }
+                fresh.push(r.unwrap_or(false));
+            }
+            let Some(shared) = decode() else { continue };
+            for sq in seqs(settings.len()) {
+                let mut prev: Option<bool> = None;
+                for (pos, &si) in sq.iter().enumerate() {
+                    let r = step(&shared, settings[si]);
+                    sp.eval();
+                    let a = match r { Ok(a) => a, Err(pn) => { fail("C02.no_panic", format!("{} sequence {:?}", p.witness(strict), sq.iter().map(|&i| show(settings[i])).collect::<Vec<_>>()), pn); break } };
+                    sp.outcome(if a { "accepted" } else { "rejected" });
+                    if prev.is_some() && prev != Some(fresh[si]) { sp.nontrivial(1) }
+                    if a != fresh[si] {
+                        fail("C02.history.independent", format!("{} same decoded value, sequence {} (step {})", p.witness(strict), sq.iter().map(|&i| show(settings[i])).collect::<Vec<_>>().join(" -> "), pos + 1),
+                            format!("step {} gave accepted={a}, a freshly decoded value gives accepted={}", pos + 1, fresh[si]));
+                    }
+                    prev = Some(a);
+                }
+            }
+        }}
+        sp.sample_str(|| "kind=mft sequence (ca, T0) -> (other-ca, T0) -> (ca, after): accepted, rejected, rejected".to_string());
+        sp.done(true, "4 kinds x 2 modes x all ordered pairs and triples of 4-10 (issuer, instant / callback) settings on one decoded value");
     }
 
     //--- (5) ROA coverage ------------------------------------------------------------------------
